@@ -28,8 +28,11 @@ def shard(ctx, n, sub, n_random, dfs_budget, with_limits):
         ctx.ev()
         ctx.count("shape_" + shape)
         before = ctx.counters.get("submits", 0) + ctx.counters.get("schedules_run", 0)
-        sigs = sx.explore_program(ctx, "C09", ast, rnd, caps_cfg, n_random, dfs_budget, stats, holder,
-                                  cache=False)
+        # a share of the programs runs in the scheduler's normal cache mode (fresh backend per run, per-call cache
+        # scopes honoured) with a smaller schedule budget; the rest with run(cache=False) on a shared backend
+        normal = shape == "optout" or rnd.random() < 0.2
+        sigs = sx.explore_program(ctx, "C09", ast, rnd, caps_cfg, max(3, n_random // 2) if normal else n_random,
+                                  max(40, dfs_budget // 3) if normal else dfs_budget, stats, holder, cache=normal)
         if len(sigs) >= 2:
             ctx.nontrivial([ast, caps_cfg])
         if i < 2:
